@@ -24,7 +24,7 @@ ASSUMPTIONS = [
     "an explicit deny and the implicit deny at the end are the same decision",
 ]
 REQUIRED = ["removed_0", "removed_1", "removed_2plus", "duplicate_removed", "grouped_removed",
-            "union_only_cover_kept"]
+            "union_only_cover_kept", "standard_removed", "switched_removed"]
 PREFIX = "= "
 _KEEP = __import__("collections").deque(maxlen=256)  # unmodified, already audited ACLs (per process)
 
@@ -61,11 +61,20 @@ def items(seed):
         I("remark", None, "plain text"),
         I("head1", None, "= block1"),
         I("head2", None, "= block2"),
+        # (appended, so that the index lists below stay valid) a non-contiguous source over host1/net30
+        I("p_nc", X("permit", 0, al["nc_low_run_plus_bit"], none, al["any"], none)),
+        I("d_nc", X("deny", 0, al["nc_low_run_plus_bit"], none, al["any"], none)),
     ]
 
 
 SHADOW_ONLY = [0, 1, 2, 3, 4, 9, 11, 16, 17]
 HEAVY = [12, 13]
+STANDARD = [0, 1, 2, 3, 4, 5, 22, 23, 19]  # items a standard ACL can hold
+SWITCHED = [0, 1, 3, 4, 9, 10, 11, 16, 17, 18, 22]
+STD_VARIANTS = [dict(grouped=False, numbered=n, skip=s, acl_type="standard")
+                for n in (False, True) for s in (None, ["nc_wildcard"])]
+SW_VARIANTS = [dict(grouped=False, numbered=False, skip=None, kwargs=kw)
+               for kw in (dict(protocol_nr=True), dict(port_nr=True), dict(protocol_nr=True, port_nr=True))]
 CORE = [0, 1, 2, 3, 4, 5, 7, 9, 11, 19, 20, 21]  # grouped/numbered variants at full length  # the items that can shadow each other (longer lists)
 
 
@@ -88,9 +97,14 @@ def describe(tier, seed):
                 platforms=["ios", "nxos(flat unnumbered, quick: length<=2)"])
 
 
+NFULL = 22  # the items that take part in the full-alphabet products
+NC_SUB = [0, 1, 2, 3, 4, 22, 23]
+
+
 def units(tier, seed):
-    n = len(items(seed))
+    n = NFULL
     out = [dict(kind="short", first=a) for a in range(n)]
+    out += [dict(kind="nc", first=a) for a in NC_SUB]
     for a in range(n):
         for b in range(n):
             out.append(dict(kind="lists", first=[a, b]))
@@ -98,6 +112,11 @@ def units(tier, seed):
         for b in SHADOW_ONLY:
             out.append(dict(kind="long", first=[a, b]))
     out.append(dict(kind="twins"))
+    for a in STANDARD:
+        for b in [None] + (STANDARD if tier == "thorough" else []):
+            out.append(dict(kind="standard", first=a, second=b))
+    for a in SWITCHED:
+        out.append(dict(kind="switched", first=a))
     if tier == "thorough":
         for a in CORE:
             for b in CORE:
@@ -107,7 +126,14 @@ def units(tier, seed):
 
 def run_unit(unit, ctx):
     its = items(ctx.seed)
-    n = len(its)
+    n = NFULL
+    if unit["kind"] == "nc":
+        # non-contiguous sources among plain ones, with and without the nc_wildcard skip
+        for ln in (1, 2, 3):
+            for rest in product(NC_SUB, repeat=ln - 1):
+                for var in (VARIANTS[0], VARIANTS[5], VARIANTS[3]):
+                    check_acl("ios", (unit["first"],) + rest, var, ctx)
+        return
     if unit["kind"] == "short":
         for ln in (1, 2):
             for rest_ in product(range(n), repeat=ln - 1):
@@ -127,6 +153,26 @@ def run_unit(unit, ctx):
                         idx = combo[:pos] + (grp,) + combo[pos:]
                         check_acl("ios", idx, VARIANTS[0], ctx)
                         check_acl("ios", idx, VARIANTS[1], ctx)
+        return
+    if unit["kind"] == "standard":
+        # standard ACLs (source only): every list of <= 3 (thorough: 4) standard items, flat / numbered, with
+        # and without the nc_wildcard skip
+        if unit["second"] is None:
+            for ln in (1, 2, 3):
+                for rest in product(STANDARD, repeat=ln - 1):
+                    for var in STD_VARIANTS:
+                        check_acl("ios", (unit["first"],) + rest, var, ctx)
+        else:
+            for rest in product(STANDARD, repeat=2):
+                for var in STD_VARIANTS:
+                    check_acl("ios", (unit["first"], unit["second"]) + rest, var, ctx)
+        return
+    if unit["kind"] == "switched":
+        # the numeric switches change text only: lists of <= 3 items with protocol_nr / port_nr on
+        for ln in (1, 2, 3):
+            for rest in product(SWITCHED, repeat=ln - 1):
+                for var in SW_VARIANTS:
+                    check_acl("ios", (unit["first"],) + rest, var, ctx)
         return
     first = tuple(unit["first"])
     if unit["kind"] == "core4":
@@ -174,11 +220,14 @@ def check_acl(platform, idx, var, ctx):
     if "p_grp_wide" in labels_ and "p_grp_memberwise" in labels_:
         return  # one configuration defines a group name once: the two variants never meet in one ACL
     ctx.ev()
+    acl_type = var.get("acl_type", "extended")
     case = dict(kind="acl", platform=platform, idx=list(idx), variant=var,
-                lines=[it.text(platform) for it in lst])
+                lines=[it.text(platform, acl_type) for it in lst])
     try:
         acl = PR.build_acl(lst, platform, group_by=PREFIX if var["grouped"] else "",
-                           numbered=var["numbered"])
+                           numbered=var["numbered"], acl_type=acl_type, **var.get("kwargs", {}))
+        if acl.type != acl_type:
+            raise AssertionError(f"harness: ACL type {acl.type}")
     except Exception as ex:  # noqa
         ctx.viol("harness_or_build:exception", case, repr(ex), "ACL built")
         return
@@ -276,6 +325,10 @@ def check_acl(platform, idx, var, ctx):
     ctx.out("removed_0" if n == 0 else "removed_1" if n == 1 else "removed_2plus")
     if n:
         ctx.nt((platform, tuple(idx), str(var)))
+        if acl_type == "standard":
+            ctx.out("standard_removed")
+        if var.get("kwargs"):
+            ctx.out("switched_removed")
         if any(before.count(before[j]) > 1 for j in deleted):
             ctx.out("duplicate_removed")
         if var["grouped"]:
